@@ -1,9 +1,13 @@
 #!/bin/bash
-# tools/try_mutant.sh <patch.diff> <ID> [tier]  : apply patch to /repo, run the check, revert.
-P=$1; ID=$2; TIER=${3:-quick}
-cd /repo && git apply "$P" || { echo "APPLY FAILED"; exit 3; }
-cd /verif && VERIF_DIR=/tmp/mut-verif-$$ ; mkdir -p $VERIF_DIR; cp /verif/known_findings.json $VERIF_DIR/
-VERIF_DIR=$VERIF_DIR ./vcheck $ID --tier $TIER 2>&1 | grep -v "^  detail" | cut -c1-400 | tail -12; rc=${PIPESTATUS[0]}
-cd /repo && git checkout -- . && git clean -fdq -e target
-rm -rf $VERIF_DIR
-echo "exit=$rc"
+# tools/try_mutant.sh <patch.diff> <ID> [tier]  : apply the patch to a scratch copy of /repo (never to /repo
+# itself, so other runs are not disturbed), run the check against the copy (VERIF_SUT). One at a time (lock).
+P=$(readlink -f "$1"); ID=$2; TIER=${3:-quick}
+SUT=/tmp/mut-sut; VD=/tmp/mut-verif-$$
+exec 9>/tmp/mut-alt.lock; flock 9
+mkdir -p $SUT $VD
+# sync to /repo's working tree; touch whatever changed so cargo's mtime fingerprints notice reverts
+rsync -a --checksum --delete --exclude target --exclude .git --out-format='%n' /repo/ $SUT/ | while read f; do [ -f "$SUT/$f" ] && touch "$SUT/$f"; done
+( cd $SUT && git apply --unsafe-paths --directory=$SUT "$P" 2>/dev/null || patch -p1 -s < "$P" ) || { echo "APPLY FAILED"; rm -rf $VD; exit 3; }
+cp /verif/known_findings.json $VD/
+cd /verif && VERIF_SUT=$SUT VERIF_DIR=$VD ./vcheck $ID --tier $TIER 2>&1 | grep -v "^  detail" | cut -c1-400 | tail -12; echo "exit=${PIPESTATUS[0]}"
+rm -rf $VD
